@@ -458,14 +458,22 @@ Definition sub_unsub (b : sub) : sub :=
      RP0: r.metrics.Load(name)          hit  -> type check, schema check, return existing
      RP1: r.metrics.LoadOrStore(name,c) loaded -> [type assertion] schema check, return existing
                                         stored -> return c
-   Metrics are never removed from the registry.  A schema is the list of label names; the harness uses
-   l0..l(n-1), so a schema is its length.
+   Metrics are never removed from the registry.  A schema is the list of label names, compared positionally.
    variant Repaired = /repo HEAD (since commit efcd108): the loaded branch does the same metricType() check as the
    Load branch and returns ErrTypeMismatch.  variant Defective = the code before efcd108 (historical, witness only): in the
    loaded branch of LoadOrStore `actual.(ptr Counter)` was an unchecked type assertion, which PANICKED when another
    goroutine registered the same name with a different metric type in between. *)
-Record ropts := { ro_name : N; ro_kind : kind; ro_nl : nat }.
-Record robj := { rb_kind : kind; rb_nl : nat }.
+(* the label schema of a registration is the LIST of label names, compared position by position (labelNamesEqual): series are
+   keyed by the positional value tuple, so a permutation, a subset, a superset or a duplicate is a different schema.  Label
+   names are numbers here (the harness uses l0, l1, ...). *)
+Fixpoint schema_eqb (a b : list nat) : bool :=
+  match a, b with
+  | [], [] => true
+  | x :: a', y :: b' => Nat.eqb x y && schema_eqb a' b'
+  | _, _ => false
+  end.
+Record ropts := { ro_name : N; ro_kind : kind; ro_nl : list nat }.
+Record robj := { rb_kind : kind; rb_nl : list nat }.
 Record rshared := { rmap : list (N * nat);     (* Registry.metrics: name -> metric object id *)
                     robjs : list robj;         (* every metric object ever published *)
                     rerrs : Z }.               (* registrationErrors *)
@@ -488,7 +496,7 @@ Definition rstep (v : variant) (s : rshared) (th : rthread) : rshared * rthread 
       | Some id =>
           match nth_error (robjs s) id with
           | Some b => if negb (kind_eqb (rb_kind b) (ro_kind o)) then (rbump s, rdone th RRErrType)
-                      else if negb (Nat.eqb (rb_nl b) (ro_nl o)) then (rbump s, rdone th RRErrSchema)
+                      else if negb (schema_eqb (rb_nl b) (ro_nl o)) then (rbump s, rdone th RRErrSchema)
                       else (s, rdone th (RROk id))
           | None => (s, rdone th RRPanic)
           end
@@ -503,7 +511,7 @@ Definition rstep (v : variant) (s : rshared) (th : rthread) : rshared * rthread 
                            | Defective => (s, rdone th RRPanic)          (* actual.(ptr Counter) on a Gauge *)
                            | _ => (rbump s, rdone th RRErrType)
                            end
-                      else if negb (Nat.eqb (rb_nl b) (ro_nl o)) then (rbump s, rdone th RRErrSchema)
+                      else if negb (schema_eqb (rb_nl b) (ro_nl o)) then (rbump s, rdone th RRErrSchema)
                       else (s, rdone th (RROk id))
           | None => (s, rdone th RRPanic)
           end
